@@ -273,8 +273,39 @@ def dummy_arg(p):
 # C10 oracle: the status matrix
 # ------------------------------------------------------------------------------------------------
 
+# where a 3xx answer points (mirrors vrest.RedirectLocations) -> the URL the followed request must go to
+REDIRECT_LOCS = {
+    "rel": "http://verif.invalid/next",
+    "abs": "http://verif.invalid/elsewhere/next?x=1",
+    "host": "http://other.invalid/next",
+    "port": "http://verif.invalid:8443/next",
+    "scheme": "https://verif.invalid/next",
+    "sub": "http://api.verif.invalid/next",
+}
+
+
+def redirect_legs(redirect):
+    """(firsts, seconds, bodies) -> ["<policy>:<first>:<second>:<body>:<loc>"]: the full first x second x body matrix under the default
+    policy with the location kind rotating through it, every location kind with every first status, and the two stopping policies"""
+    firsts, seconds, bodies = redirect
+    locs = sorted(REDIRECT_LOCS)
+    legs, k = [], 0
+    for first in firsts:
+        for second in seconds:
+            for b in bodies:
+                legs.append("follow:%d:%d:%s:%s" % (first, second, b, locs[k % len(locs)]))
+                k += 1
+        for loc in locs:
+            leg = "follow:%d:%d:%s:%s" % (first, seconds[0], bodies[0], loc)
+            if leg not in legs:
+                legs.append(leg)
+        legs.append("last:%d:0:empty:%s" % (first, locs[k % len(locs)]))
+        legs.append("refuse:%d:0:empty:%s" % (first, locs[(k + 1) % len(locs)]))
+    return legs
+
+
 def c10_oracle(pkg, iface, statuses, bodies, faults, redirect=None, retry=None, logged=None, logged_statuses=None, configured=None):
-    """redirect: None | (firsts, seconds, bodies);  retry: None | {n: [script specs]}"""
+    """redirect: None | (firsts, seconds, bodies) (see redirect_legs);  retry: None | {n: [script specs]}"""
     n = iface["name"]
     lines = ["package " + pkg, "", 'import (', '\t"context"', '\t"net/http"', "", '\t"github.com/lopolopen/shoot"', '\t"github.com/lopolopen/shoot/middleware"', '\t"verifcases/vrest"', ")", "",
              "var _ = middleware.RetryMiddleware", "",
@@ -302,9 +333,7 @@ def c10_oracle(pkg, iface, statuses, bodies, faults, redirect=None, retry=None, 
               '\tvrest.StatusMatrix(emit, sc, hc, verifMethods(c), vrest.Statuses("%s"), []string{%s}, []string{%s})' % (
                   statuses, ", ".join('"%s"' % b for b in bodies), ", ".join('"%s"' % f for f in faults if not f.endswith("-real")))]
     if redirect:
-        firsts, seconds, rbodies = redirect
-        lines.append('\tvrest.RedirectLegs(emit, sc, hc, verifMethods(c), []int{%s}, []int{%s}, []string{%s})' % (
-            ", ".join(str(x) for x in firsts), ", ".join(str(x) for x in seconds), ", ".join('"%s"' % b for b in rbodies)))
+        lines.append('\tvrest.RedirectLegs(emit, sc, hc, verifMethods(c), []string{%s})' % ", ".join('"%s"' % l for l in redirect_legs(redirect)))
     for tag, opts, cstatuses in (configured or []):
         # a client built with a RestConf option combination; BuildMiddleware wraps http.DefaultTransport = the scripted transport
         lines += ["\t{", "\t\told := http.DefaultTransport", "\t\tsc5 := &vrest.Script{}", "\t\thttp.DefaultTransport = sc5",
